@@ -200,6 +200,23 @@ impl Sut {
         }
     }
 
+    fn reconnect(&mut self) {
+        match self {
+            Sut::O(s) => {
+                s.reconnect();
+                s.take_out();
+                s.take_cb();
+            }
+            Sut::M(s) => {
+                s.disconnect();
+                s.advance(1500);
+                s.connect();
+                s.take_out();
+                s.take_cb();
+            }
+        }
+    }
+
     fn send_raw(&mut self, b: &[u8]) -> Reaction {
         match self {
             Sut::O(s) => {
@@ -490,6 +507,8 @@ struct LSeq {
     frames: Vec<(String, u8, u16, u16)>, // label, ctrl (without DIR), dst, src
 }
 
+const RECONNECT: u8 = 0xFF;
+
 fn seq_alphabet(role: Role) -> Vec<(String, u8, u16, u16)> {
     let own = role.own();
     let peer = role.peer();
@@ -507,6 +526,9 @@ fn seq_alphabet(role: Role) -> Vec<(String, u8, u16, u16)> {
         ("conf-data-fcb1-from-other".to_string(), p | link::FCV | link::FCB | link::PRI_CONFIRMED_USER_DATA, own, 33),
         ("conf-data-no-fcv".to_string(), p | link::PRI_CONFIRMED_USER_DATA, own, peer),
     ];
+    // not a frame: the connection is closed and a new one established; the secondary station
+    // of the new session is not reset (sentinel control octet 0xFF)
+    v.push(("reconnect".to_string(), RECONNECT, 0, 0));
     if role == Role::Outstation {
         v.push(("bcast-conf-data-fcb1".to_string(), p | link::FCV | link::FCB | link::PRI_CONFIRMED_USER_DATA, 0xFFFF, peer));
         v.push(("bcast-unconf-data".to_string(), p | link::PRI_UNCONFIRMED_USER_DATA, 0xFFFD, peer));
@@ -536,6 +558,21 @@ impl Scenario for LSeq {
         for &i in path {
             let (label, ctrl, dst, src) = &self.frames[i];
             n = n.wrapping_add(1);
+            if *ctrl == RECONNECT {
+                sut.reconnect();
+                st = Sec::NotReset;
+                res.transitions += 1;
+                obs.add_str(label);
+                if transcript {
+                    res.transcript.push("-- connection closed, new connection established".to_string());
+                }
+                if let Some(fl) = sut.failure() {
+                    res.violation = Some(Violation::new("C07.X0", fl.clone(), fl));
+                    break;
+                }
+                res.model_states.push(0);
+                continue;
+            }
             let is_data = ctrl & link::PRM != 0 && matches!(ctrl & 0x0F, 3 | 4);
             let p = if is_data { payload(role, n) } else { vec![] };
             let f = LinkFrame::new(*ctrl | if role.dir() { 0 } else { link::DIR }, *dst, *src, &p);
